@@ -9,10 +9,53 @@ of partitura modules that key dictionaries by timeline times.
 from __future__ import annotations
 
 
+def _is_sym(v):
+    from engine.sym import is_symbolic
+
+    if is_symbolic(v):
+        return True
+    if isinstance(v, tuple):
+        return any(_is_sym(x) for x in v)
+    return False
+
+
+class _NoTrace:
+    """context manager: tracing off while symbolic execution is active (for bookkeeping on concrete keys)."""
+
+    def __enter__(self):
+        from engine.sym import _ACTIVE
+
+        self.cm = None
+        if _ACTIVE["symbolic"]:
+            from crosshair.tracers import NoTracing
+
+            self.cm = NoTracing()
+            self.cm.__enter__()
+
+    def __exit__(self, *a):
+        if self.cm is not None:
+            self.cm.__exit__(*a)
+        return False
+
+
+def _new_index():
+    with _NoTrace():
+        return dict()
+
+
+def _numberish(v):
+    return isinstance(v, (int, float)) or (isinstance(v, tuple) and any(_numberish(x) for x in v))
+
+
 class SymDict:
+    """insertion-ordered mapping: concrete hashable keys are indexed by a builtin dict (fast path, no
+    comparisons), keys that are or contain symbolic numbers are found with == (forks the path)."""
+
     def __init__(self, *a, **k):
         self._k = []
         self._v = []
+        self._idx = _new_index()      # concrete key -> position (builtin dict, touched only with tracing off)
+        self._symk = []     # positions of symbolic keys
         if a:
             src = a[0]
             items = src.items() if hasattr(src, "items") else src
@@ -22,21 +65,79 @@ class SymDict:
             self[kk] = vv
 
     def _find(self, key):
+        if not _is_sym(key):
+            pos = -1
+            unhashable = False
+            with _NoTrace():
+                try:
+                    pos = self._idx.get(key, -1)
+                except TypeError:
+                    unhashable = True
+            if unhashable:
+                for i, kk in enumerate(self._k):
+                    if kk is key:
+                        return i
+            if pos >= 0:
+                return pos
+            if self._symk and _numberish(key):
+                for i in self._symk:
+                    if self._k[i] == key:
+                        return i
+            return -1
         for i, kk in enumerate(self._k):
             if kk is key:
                 return i
         for i, kk in enumerate(self._k):
-            try:
+            if i in self._symk or _numberish(kk):
                 if kk == key:
                     return i
-            except Exception:
-                pass
         return -1
+
+    def _reindex(self):
+        self._idx = _new_index()
+        self._symk = []
+        for i, kk in enumerate(self._k):
+            if _is_sym(kk):
+                self._symk.append(i)
+            else:
+                with _NoTrace():
+                    try:
+                        self._idx[kk] = i
+                    except TypeError:
+                        pass
 
     def __missing__(self, key):
         raise KeyError(key)
 
+    def _fast(self, key):
+        """(decided, position) for concrete hashable keys without touching the tracer. Call with tracing off."""
+        t = type(key)
+        m = getattr(t, "__module__", "")
+        if (isinstance(m, str) and m.startswith("crosshair")) or t is tuple:
+            return False, -1
+        try:
+            pos = self._idx.get(key, -1)
+        except TypeError:
+            return False, -1
+        if pos >= 0:
+            return True, pos
+        if self._symk and isinstance(key, (int, float)):
+            return False, -1  # may equal a symbolic key: slow path
+        return True, -1
+
     def __getitem__(self, key):
+        with _NoTrace():
+            decided, pos = self._fast(key)
+            if decided and pos >= 0:
+                return self._v[pos]
+            if decided and type(self).__missing__ is SymDefaultDict.__missing__ and self.default_factory is not None \
+                    and getattr(self.default_factory, "__module__", "").startswith("partitura"):
+                # concrete new key of a defaultdict whose factory is a plain partitura container (_OrderedSet)
+                v = self.default_factory()
+                self._k.append(key)
+                self._v.append(v)
+                self._idx[key] = len(self._k) - 1
+                return v
         i = self._find(key)
         if i < 0:
             return self.__missing__(key)
@@ -47,6 +148,14 @@ class SymDict:
         if i < 0:
             self._k.append(key)
             self._v.append(value)
+            if _is_sym(key):
+                self._symk.append(len(self._k) - 1)
+            else:
+                with _NoTrace():
+                    try:
+                        self._idx[key] = len(self._k) - 1
+                    except TypeError:
+                        pass
         else:
             self._v[i] = value
 
@@ -56,6 +165,7 @@ class SymDict:
             raise KeyError(key)
         del self._k[i]
         del self._v[i]
+        self._reindex()
 
     def __contains__(self, key):
         return self._find(key) >= 0
@@ -91,6 +201,7 @@ class SymDict:
         v = self._v[i]
         del self._k[i]
         del self._v[i]
+        self._reindex()
         return v
 
     def setdefault(self, key, default=None):
@@ -110,12 +221,17 @@ class SymDict:
     def clear(self):
         self._k = []
         self._v = []
+        self._idx = _new_index()
+        self._symk = []
 
     def copy(self):
         c = type(self).__new__(type(self))
         c.__dict__.update(self.__dict__)
         c._k = list(self._k)
         c._v = list(self._v)
+        with _NoTrace():
+            c._idx = dict(self._idx)
+        c._symk = list(self._symk)
         return c
 
     def __eq__(self, other):
